@@ -264,6 +264,35 @@ def _realizable_units_model(s, inputs, timeout_ms):
     return None
 
 
+def _feasible_by_guess(pc, inputs, tries=6):
+    """model of pc with every symbolic unit fixed to a real unit (trial 0: the SI units) and, from trial 2 on, the integer
+    inputs fixed as well; None if no trial is satisfiable within its small budget"""
+    import random
+    from . import spec
+    rng = random.Random(12345)
+    facs = [(k, e) for k, e in inputs.items() if k.endswith("#fac") and z3.is_app(e) and e.decl().name().startswith("fac_")]
+    ints = [(k, e) for k, e in inputs.items() if not k.endswith("#fac") and z3.is_expr(e) and e.sort() == z3.IntSort() and not k.startswith("u_")]
+    for t in range(tries + 2):
+        s = z3.Solver()
+        s.set("timeout", 8000 if t < 2 or t >= tries else 3000)       # idle: ~0.1 s when satisfiable
+        s.add(*pc)
+        for k, e in facs:
+            vals = sorted(set(v for u, v in spec.SI_TABLE.get(e.decl().name()[4:], {}).items() if u not in ("Ndm", "Ncm", "Nmm")))
+            if not vals:
+                continue
+            v = 1 if (t % 2 == 0 and 1 in vals) else rng.choice(vals)
+            s.add(e == z3.RealVal(f"{v.numerator}/{v.denominator}") if hasattr(v, "numerator") else e == v)
+        if t < tries:           # the last two trials leave the integer inputs free
+            for k, e in ints:
+                s.add(e == rng.choice((10, 12, 20, 30, 1, 2, 17) if t else (20, 12)))
+        try:
+            if s.check() == z3.sat:
+                return s.model()
+        except z3.Z3Exception:
+            pass
+    return None
+
+
 def discharge(pc, goal, inputs, timeout_ms=10000, fallbacks=True):
     r = _discharge(pc, goal, inputs, timeout_ms, fallbacks)
     if r["status"] == "refuted" and not r.get("units_realizable") and any(k.endswith("#fac") for k in inputs):
@@ -290,6 +319,11 @@ def _discharge(pc, goal, inputs, timeout_ms=10000, fallbacks=True):
     g = z3.simplify(goal)
     if z3.is_true(g):
         return dict(status="discharged", backend="z3-simplify", time_s=time.time() - t0, model=None)
+    if z3.is_false(g):
+        gm = _feasible_by_guess(pc, inputs)
+        if gm is not None:
+            return dict(status="refuted", backend="z3-5.1(api, guessed units)", time_s=time.time() - t0,
+                        model=model_dict(gm, inputs), units_realizable=True)
     if len(pc) > 30:
         la = _linear_abstraction(pc, g, max(500, timeout_ms // 4))
         if la is not None:
@@ -297,7 +331,9 @@ def _discharge(pc, goal, inputs, timeout_ms=10000, fallbacks=True):
             return la
     if z3.is_false(g):
         # the clause failed at the Python level on this path: the only question is whether the path is feasible.
-        # One call of the full solver with a generous budget (verdicts must not flip when the machine is busy).
+        # (1) guess-and-check: fixing the symbolic unit factors (and then the integer inputs) to concrete values makes the
+        #     path condition (nearly) linear; a model of the strengthened formula is a model of the path condition.
+        # (2) otherwise one call of the full solver with a generous budget (verdicts must not flip when the machine is busy).
         s = z3.Solver()
         s.set("timeout", 6 * timeout_ms)
         s.add(*pc)
